@@ -131,6 +131,11 @@ def gen_case(rng, tier, i=None):
         # seed, a batch of 180 runs has met every cell
         family, injected = 'rules', False
         forced = STRATA[(i // 3) % len(STRATA)]
+    elif i is not None and i % 30 == 1:
+        # one more cell, outside the grid: a transform whose pattern cannot be compiled, in front of a transform that is fine,
+        # over a long statement
+        family, injected = 'rules', False
+        forced = ('transform', 're.error')
     case = {'family': family, 'injected': injected, 'items': items, 'mode': rng.choice(['first_match', 'first_match', 'most_specific']),
             'failing': [], 'eval_faults': [],
             # the budget `tally up` runs on has the supplemental `orders` source the rules query; in a third of the cases it cannot be
@@ -144,6 +149,8 @@ def gen_case(rng, tier, i=None):
             # now and then the statement is long: the items repeated under fresh row ids (what a failed evaluation leaves behind
             # must not build up over a few hundred rows)
             'big': rng.randint(140, 300) if rng.random() < 0.1 else 0}
+    if forced and forced[0] in ('match', 'tag', 'transform') and forced[1] in ('re.error', 'unknown-name', 'TypeError'):
+        case['big'] = rng.randint(140, 300)     # these cells of the grid always come with a long statement
     if family == 'rules':
         site = rng.choice(SITES_RULES)
         if forced:
@@ -233,7 +240,9 @@ def gen_case(rng, tier, i=None):
             r['tags'] = r['tags'] + ['{%s}' % expr]
         else:
             expr = 'strip_prefix(field.description, "SQ *")' if injected else rng.choice(['regex_replace(field.description, "(", "")', 'field.description + 1', 'field.nosuch', 'uppercase()'])
-            m['transforms'] = [[rng.choice(['field.description', 'field.description', 'field.ref']), expr]] + ([['field.description', 'regex_replace(field.description, "\\\\s+STORE", "")']] if rng.random() < 0.5 else [])
+            if forced and forced[0] == 'transform':
+                expr = 'regex_replace(field.description, "(", "")'
+            m['transforms'] = [[rng.choice(['field.description', 'field.description', 'field.ref']), expr]] + ([['field.description', 'regex_replace(field.description, "\\\\s+STORE", "")']] if rng.random() < 0.5 or (forced and forced[0] == 'transform') else [])
         case.update({'site': site, 'model': m, 'expr': expr, 'rule_index': k})
     elif family == 'legacy':
         site = rng.choice(SITES_LEGACY)
